@@ -7,6 +7,7 @@ import (
 	"fmt"
 	"iter"
 	"sort"
+	"strings"
 	"sync"
 	"time"
 
@@ -35,6 +36,52 @@ type call struct {
 	Detail  string `json:"detail"`
 	Started bool   `json:"started_before"`
 	Commit  bool   `json:"returned_commit"`
+	// what the call returned (canonical, TriggerSync stripped) and what the driver then did with it: its
+	// calls on the WAL store, the broadcasters and the commit listener up to its next call into the
+	// state machine — compared with the Lean model of driver.execute
+	Acts string   `json:"actions"`
+	Ops  []string `json:"driver_ops"`
+	// the machine's Height() when the call returned
+	HeightAfter uint64 `json:"height_after"`
+}
+
+// opLog is shared by the WAL store, the broadcasters and the commit listener of one driver run.
+type opLog struct {
+	mu  sync.Mutex
+	ops []string
+}
+
+func (l *opLog) add(s string) {
+	l.mu.Lock()
+	l.ops = append(l.ops, s)
+	l.mu.Unlock()
+}
+
+func (l *opLog) cut() []string {
+	l.mu.Lock()
+	o := l.ops
+	l.ops = nil
+	l.mu.Unlock()
+	return o
+}
+
+// execCheck is one returned action list with what the real driver did with it.
+type execCheck struct {
+	Replaying bool
+	Acts      string
+	Ops       []string
+	Call      string
+}
+
+// replayCheck is one restart of the real driver: the machine it starts with, what the WAL store
+// handed to driver.replay, the entries replay fed to ProcessWAL and the height it ended at.
+type replayCheck struct {
+	NewLine string
+	Loaded  []string
+	Fed     []string
+	Ops     []string
+	Height  uint64
+	Name    string
 }
 
 // recSM wraps the real state machine and records the calls the driver makes.
@@ -46,10 +93,18 @@ type recSM struct {
 	bad     []string
 	onActs  func([]Act)
 	hits    map[string]int
+	log     *opLog
 }
 
 func (r *recSM) record(kind, detail string, needStarted bool, f func() []actions.Action[Val, Hsh, Adr]) []actions.Action[Val, Hsh, Adr] {
 	r.mu.Lock()
+	if r.log != nil {
+		// everything the driver did since the previous call returned is its execution of that call's actions
+		ops := r.log.cut()
+		if n := len(r.calls); n > 0 {
+			r.calls[n-1].Ops = ops
+		}
+	}
 	before := r.started
 	if needStarted && !before {
 		r.bad = append(r.bad, fmt.Sprintf("%s %s delivered to a height that is not started (call #%d)", kind, detail, len(r.calls)))
@@ -68,7 +123,7 @@ func (r *recSM) record(kind, detail string, needStarted bool, f func() []actions
 		}
 		out = append(out, a)
 	}
-	acts, _ := canonActions(out)
+	acts, actsStr := canonActions(out)
 	r.mu.Lock()
 	if kind == "ProcessStart" || kind == "ProcessWAL(start)" {
 		r.started = true
@@ -76,7 +131,7 @@ func (r *recSM) record(kind, detail string, needStarted bool, f func() []actions
 	if commit {
 		r.started = false
 	}
-	r.calls = append(r.calls, call{Kind: kind, Detail: detail, Started: before, Commit: commit})
+	r.calls = append(r.calls, call{Kind: kind, Detail: detail, Started: before, Commit: commit, Acts: actsStr, HeightAfter: uint64(r.sm.Height())})
 	r.hits[kind]++
 	if kind == "ProcessTimeout" && len(as) == 0 {
 		r.hits["ProcessTimeout(stale or wrong step)"]++
@@ -131,18 +186,30 @@ func (r *recSM) ProcessWAL(e wal.Entry[Val, Hsh, Adr]) []actions.Action[Val, Hsh
 	case *wal.Timeout:
 		kind, need = "ProcessWAL(timeout)", true
 	}
-	return r.record(kind, fmt.Sprint(e.GetHeight()), need, func() []actions.Action[Val, Hsh, Adr] { return r.sm.ProcessWAL(e) })
+	return r.record(kind, canonAction(&actions.WriteWAL[Val, Hsh, Adr]{Entry: e}).Str, need, func() []actions.Action[Val, Hsh, Adr] { return r.sm.ProcessWAL(e) })
 }
 
 // memWAL is an in-memory walstore.TendermintWALStore (entries survive a driver restart).
 type memWAL struct {
 	mu      sync.Mutex
 	entries []wal.Entry[Val, Hsh, Adr]
+	log     *opLog
+	// keepDeleted: DeleteWALEntries is acknowledged but its effect is lost (as by a crash between the
+	// commit delivery and the durable prune record): the next process finds entries below its height
+	keepDeleted bool
 }
 
-func (m *memWAL) Flush() error { return nil }
+func (m *memWAL) Flush() error {
+	if m.log != nil {
+		m.log.add("flush")
+	}
+	return nil
+}
 func (m *memWAL) Close() error { return nil }
 func (m *memWAL) SetWALEntry(e wal.Entry[Val, Hsh, Adr]) error {
+	if m.log != nil {
+		m.log.add("set:" + canonAction(&actions.WriteWAL[Val, Hsh, Adr]{Entry: e}).Str)
+	}
 	m.mu.Lock()
 	// copy what may alias the caller's data
 	switch x := e.(type) {
@@ -159,6 +226,12 @@ func (m *memWAL) SetWALEntry(e wal.Entry[Val, Hsh, Adr]) error {
 }
 
 func (m *memWAL) DeleteWALEntries(h types.Height) error {
+	if m.log != nil {
+		m.log.add(fmt.Sprintf("delete:%d", uint64(h)))
+	}
+	if m.keepDeleted {
+		return nil
+	}
 	m.mu.Lock()
 	keep := m.entries[:0:0]
 	for _, e := range m.entries {
@@ -185,10 +258,18 @@ func (m *memWAL) LoadAllEntries() iter.Seq2[wal.Entry[Val, Hsh, Adr], error] {
 	}
 }
 
-type okCommits struct{ ch chan jsync.CommittedBlock }
+type okCommits struct {
+	ch  chan jsync.CommittedBlock
+	log *opLog
+}
 
-func (okCommits) OnCommit(context.Context, types.Height, Val) bool { return true }
-func (c okCommits) Listen() <-chan jsync.CommittedBlock            { return c.ch }
+func (c okCommits) OnCommit(_ context.Context, h types.Height, v Val) bool {
+	if c.log != nil {
+		c.log.add(fmt.Sprintf("commit:%d:%d", uint64(h), uint64(v)))
+	}
+	return true
+}
+func (c okCommits) Listen() <-chan jsync.CommittedBlock { return c.ch }
 
 type chanListener[M any] struct{ ch chan M }
 
@@ -199,7 +280,7 @@ type fnBroadcaster[M any] struct{ f func(M) }
 func (b fnBroadcaster[M]) Broadcast(_ context.Context, m M) { b.f(m) }
 
 // runDriverTrace runs the real driver twice on one WAL (second run = restart with replay).
-func runDriverTrace(res *lib.Result, r *lib.RNG, idx int) (totalCommits, totalTimeouts int) {
+func runDriverTrace(res *lib.Result, r *lib.RNG, idx int) (totalCommits, totalTimeouts int, checks []execCheck, replays []replayCheck) {
 	cfg := &Cfg{Powers: []uint64{1, 1, 1, 1}, Total: 4, VMod: 4, VRem: 3, PMul: 1, Tbl: []int{0, 1, 2, 3}}
 	me := r.Intn(4)
 	store := &memWAL{}
@@ -209,7 +290,15 @@ func runDriverTrace(res *lib.Result, r *lib.RNG, idx int) (totalCommits, totalTi
 	chance := func(pct int) bool { seedMu.Lock(); defer seedMu.Unlock(); return r.Intn(100) < pct }
 	allBad := []string{}
 	for phase := 0; phase < 2; phase++ {
-		rec := &recSM{sm: newSM(cfg, NodeSpec{Node: me, Height: height, VBase: uint64(400 * (me + 1)), VStep: 4}), hits: map[string]int{}}
+		olog := &opLog{}
+		store.log = olog
+		store.keepDeleted = phase == 0 && idx%2 == 1
+		spec := NodeSpec{Node: me, Height: height, VBase: uint64(400 * (me + 1)), VStep: 4}
+		rc := replayCheck{NewLine: newLine(0, cfg, spec), Name: fmt.Sprintf("trace %d phase %d", idx, phase)}
+		for e := range store.LoadAllEntries() {
+			rc.Loaded = append(rc.Loaded, canonAction(&actions.WriteWAL[Val, Hsh, Adr]{Entry: e}).Str)
+		}
+		rec := &recSM{sm: newSM(cfg, NodeSpec{Node: me, Height: height, VBase: uint64(400 * (me + 1)), VStep: 4}), hits: map[string]int{}, log: olog}
 		props := make(chan *types.Proposal[Val, Hsh, Adr])
 		pvs := make(chan *types.Prevote[Hsh, Adr])
 		pcs := make(chan *types.Precommit[Hsh, Adr])
@@ -276,11 +365,17 @@ func runDriverTrace(res *lib.Result, r *lib.RNG, idx int) (totalCommits, totalTi
 				}
 			}
 		}
-		d := driver.New[Val, Hsh, Adr](log.NewNopZapLogger(), store, rec, okCommits{make(chan jsync.CommittedBlock)},
+		d := driver.New[Val, Hsh, Adr](log.NewNopZapLogger(), store, rec, okCommits{make(chan jsync.CommittedBlock), olog},
 			p2p.Broadcasters[Val, Hsh, Adr]{
-				ProposalBroadcaster:  fnBroadcaster[*types.Proposal[Val, Hsh, Adr]]{func(*types.Proposal[Val, Hsh, Adr]) {}},
-				PrevoteBroadcaster:   fnBroadcaster[*types.Prevote[Hsh, Adr]]{func(*types.Prevote[Hsh, Adr]) {}},
-				PrecommitBroadcaster: fnBroadcaster[*types.Precommit[Hsh, Adr]]{func(*types.Precommit[Hsh, Adr]) {}},
+				ProposalBroadcaster: fnBroadcaster[*types.Proposal[Val, Hsh, Adr]]{func(p *types.Proposal[Val, Hsh, Adr]) {
+					olog.add("out:" + canonAction((*actions.BroadcastProposal[Val, Hsh, Adr])(p)).Str)
+				}},
+				PrevoteBroadcaster: fnBroadcaster[*types.Prevote[Hsh, Adr]]{func(p *types.Prevote[Hsh, Adr]) {
+					olog.add("out:" + canonAction((*actions.BroadcastPrevote[Hsh, Adr])(p)).Str)
+				}},
+				PrecommitBroadcaster: fnBroadcaster[*types.Precommit[Hsh, Adr]]{func(p *types.Precommit[Hsh, Adr]) {
+					olog.add("out:" + canonAction((*actions.BroadcastPrecommit[Hsh, Adr])(p)).Str)
+				}},
 			},
 			p2p.Listeners[Val, Hsh, Adr]{ProposalListener: chanListener[*types.Proposal[Val, Hsh, Adr]]{props},
 				PrevoteListener: chanListener[*types.Prevote[Hsh, Adr]]{pvs}, PrecommitListener: chanListener[*types.Precommit[Hsh, Adr]]{pcs}},
@@ -318,6 +413,26 @@ func runDriverTrace(res *lib.Result, r *lib.RNG, idx int) (totalCommits, totalTi
 		totalTimeouts += rec.hits["ProcessTimeout"]
 		allBad = append(allBad, rec.bad...)
 		ncalls := len(rec.calls)
+		if runErr == nil {
+			// driver.replay comes first: the ProcessWAL calls in front of the first other call
+			for i := 0; i < ncalls && strings.HasPrefix(rec.calls[i].Kind, "ProcessWAL"); i++ {
+				rc.Fed = append(rc.Fed, rec.calls[i].Detail)
+				rc.Ops = append(rc.Ops, rec.calls[i].Ops...)
+				rc.Height = rec.calls[i].HeightAfter
+			}
+			if len(rc.Fed) == 0 {
+				rc.Height = height
+			}
+			if ncalls > len(rc.Fed) { // replay was completed (a call of listen followed)
+				replays = append(replays, rc)
+			}
+			// the last call's segment may be cut short by the end of the run: not compared
+			for i := 0; i+1 < ncalls; i++ {
+				c := rec.calls[i]
+				checks = append(checks, execCheck{Replaying: strings.HasPrefix(c.Kind, "ProcessWAL"), Acts: c.Acts, Ops: c.Ops,
+					Call: fmt.Sprintf("trace %d phase %d call #%d %s %s", idx, phase, i, c.Kind, c.Detail)})
+			}
+		}
 		sample := rec.calls[:min(ncalls, 14)]
 		rec.mu.Unlock()
 		res.Case(fmt.Sprintf("driver-trace-%d-%d", idx, phase), ncalls > 1)
@@ -335,5 +450,145 @@ func runDriverTrace(res *lib.Result, r *lib.RNG, idx int) (totalCommits, totalTi
 			What:   "consensus/driver called the state machine outside the discipline its loop is proved to keep: " + allBad[0],
 			Replay: map[string]any{"mode": "driver-trace", "seed_index": idx, "problems": allBad[:min(len(allBad), 10)]}})
 	}
-	return totalCommits, totalTimeouts
+	return totalCommits, totalTimeouts, checks, replays
+}
+
+// compareExec compares what the real driver did with every returned action list (its calls on the WAL
+// store, the broadcasters and the commit listener, in order) with the Lean model of driver.execute
+// (`execute` in ModelDriver.lean). Timers and TriggerSync are not observable here and are dropped from
+// the model's answer; OnCommit receives (height, value) only.
+func compareExec(res *lib.Result, drv *lib.Driver, checks []execCheck) {
+	lines := make([]string, len(checks))
+	for i, c := range checks {
+		b := "0"
+		if c.Replaying {
+			b = "1"
+		}
+		lines[i] = "exec " + b
+		if c.Acts != "-" {
+			lines[i] += " " + c.Acts
+		}
+	}
+	outs, err := askAll(res, harnessFlags, drv, lines)
+	if err != nil || len(outs) != len(lines) {
+		res.Fatalf("Lean driver failed on the execute comparison: %v (%d answers for %d requests)", err, len(outs), len(lines))
+		return
+	}
+	res.Compared(len(checks))
+	bad := 0
+	// the rule itself, on what the REAL driver did: nothing leaves the node (broadcast, commit delivery)
+	// while a WAL entry handed to the store since the last Flush is still unflushed
+	for _, c := range checks {
+		dirty := ""
+		for _, op := range c.Ops {
+			switch {
+			case op == "flush":
+				dirty = ""
+			case strings.HasPrefix(op, "set:"):
+				dirty = op[4:]
+			case (strings.HasPrefix(op, "out:") || strings.HasPrefix(op, "commit:")) && dirty != "":
+				res.Violate(lib.Violation{Sig: "driver-lets-a-message-out-before-its-cause-is-flushed",
+					What: fmt.Sprintf("consensus/driver executed %q (%s): %s happened while WAL entry %s was not flushed — after a crash the replayed state machine does not "+
+						"know the input that made it act and may vote differently", c.Acts, c.Call, op, dirty),
+					Replay: map[string]any{"mode": "driver-trace", "call": c.Call, "actions": c.Acts, "driver_ops": c.Ops}})
+				dirty = ""
+			}
+		}
+	}
+	for i, c := range checks {
+		model, flag := outs[i], ""
+		if k := strings.Index(model, " # "); k >= 0 {
+			model, flag = model[:k], model[k+3:]
+		}
+		var want []string
+		for _, op := range strings.Fields(model) {
+			switch {
+			case op == "-" || strings.HasPrefix(op, "sched:") || strings.HasPrefix(op, "sync:"):
+			case strings.HasPrefix(op, "commit:C:"):
+				f := strings.Split(op, ":") // commit:C:h:r:s:vr:v
+				if len(f) == 7 {
+					want = append(want, "commit:"+f[2]+":"+f[6])
+				} else {
+					want = append(want, op)
+				}
+			default:
+				want = append(want, op)
+			}
+		}
+		hasCommit := strings.Contains(" "+c.Acts, " C:")
+		if strings.Join(want, " ") != strings.Join(c.Ops, " ") || (flag == "1") != hasCommit {
+			bad++
+			if bad <= 3 {
+				res.Mismatch(lib.Mismatch{Sig: "driver-execute-differs-from-model", Input: map[string]any{"call": c.Call, "actions": c.Acts, "replaying": c.Replaying},
+					Model: strings.Join(want, " ") + " # " + flag, Impl: strings.Join(c.Ops, " ")})
+			}
+			continue
+		}
+		for _, op := range c.Ops {
+			switch {
+			case op == "flush":
+				res.Hit("driver/execute:flush")
+			case strings.HasPrefix(op, "set:"):
+				res.Hit("driver/execute:set-wal-entry")
+			case strings.HasPrefix(op, "out:"):
+				res.Hit("driver/execute:broadcast")
+			case strings.HasPrefix(op, "commit:"):
+				res.Hit("driver/execute:on-commit")
+			}
+		}
+		if c.Replaying {
+			res.Hit("driver/execute:list-executed-while-replaying")
+		}
+	}
+}
+
+// compareReplay compares driver.replay of the real driver (which loaded entries it feeds to ProcessWAL —
+// those not below the machine's CURRENT height —, what it does with the results, where the machine
+// ends) with `replay` of ModelDriver.lean run on the same loaded entries.
+func compareReplay(res *lib.Result, drv *lib.Driver, rcs []replayCheck) {
+	var lines []string
+	for _, rc := range rcs {
+		l := "replay 0"
+		if len(rc.Loaded) > 0 {
+			l += " " + strings.Join(rc.Loaded, " ")
+		}
+		lines = append(lines, rc.NewLine, l)
+	}
+	outs, err := askAll(res, harnessFlags, drv, lines)
+	if err != nil || len(outs) != len(lines) {
+		res.Fatalf("Lean driver failed on the replay comparison: %v (%d answers for %d requests)", err, len(outs), len(lines))
+		return
+	}
+	res.Compared(len(rcs))
+	for i, rc := range rcs {
+		parts := strings.Split(outs[2*i+1], " # ")
+		impl := strings.Join(rc.Fed, " ")
+		if impl == "" {
+			impl = "-"
+		}
+		var ops []string
+		if len(parts) == 3 {
+			for _, op := range strings.Fields(parts[1]) {
+				switch {
+				case op == "-" || strings.HasPrefix(op, "sched:") || strings.HasPrefix(op, "sync:"):
+				case strings.HasPrefix(op, "commit:C:"):
+					if f := strings.Split(op, ":"); len(f) == 7 {
+						op = "commit:" + f[2] + ":" + f[6]
+					}
+					ops = append(ops, op)
+				default:
+					ops = append(ops, op)
+				}
+			}
+		}
+		if outs[2*i] != "ok" || len(parts) != 3 || parts[0] != impl || parts[2] != fmt.Sprint(rc.Height) || strings.Join(ops, " ") != strings.Join(rc.Ops, " ") {
+			res.Mismatch(lib.Mismatch{Sig: "driver-replay-differs-from-model", Input: map[string]any{"restart": rc.Name, "loaded": rc.Loaded},
+				Model: outs[2*i+1], Impl: impl + " # " + strings.Join(rc.Ops, " ") + " # " + fmt.Sprint(rc.Height)})
+			continue
+		}
+		res.HitN("driver/replay:entries-loaded", len(rc.Loaded))
+		res.HitN("driver/replay:entries-fed-to-ProcessWAL", len(rc.Fed))
+		res.HitN("driver/replay:entries-skipped(below the machine's height)", len(rc.Loaded)-len(rc.Fed))
+		res.Hit("driver/replay:compared-with-model")
+	}
 }
